@@ -59,6 +59,10 @@ func stakeNewValidator(ctx sdk.Ctx, msg types.MsgStake, k keeper.Keeper) sdk.Res
 	validator := types.NewValidator(sdk.Address(msg.PubKey.Address()), msg.PubKey, sdk.ZeroInt()) // the stake is added by StakeValidator below
 	// Set Validator Status
 	validator.Status = sdk.Unstaked
+	// an address convicted of double signing stays jailed, also when its old record is gone
+	if info, found := k.GetValidatorSigningInfo(ctx, validator.Address); found && info.Tombstoned {
+		validator.Jailed = true
+	}
 	// check if they can stake
 	if err := k.ValidateValidatorStaking(ctx, validator, msg.Value); err != nil {
 		return err.Result()
